@@ -668,20 +668,81 @@ func knownFinding(j job, o outcome) (class, what string) {
 
 var entries = []string{"Validate", "PlanQuery", "Execute", "ExecuteSubscription", "CacheGet", "CacheGetNorm", "Do", "Subscribe"}
 
+// supervise runs the whole harness in a WORKER process. An unrecovered panic in a goroutine started by the library
+// (or a fatal runtime error) kills that process; the supervisor then re-runs every job that was in flight, each in
+// its own child process, and reports the ones that die again with their exact input.
+func supervise() {
+	run := hx.Begin("C09")
+	exe, err := os.Executable()
+	if err != nil {
+		run.CheckError("os.Executable: " + err.Error())
+		run.Finish()
+		return
+	}
+	if run.ReplayDir != "" {
+		old, _ := filepath.Glob(filepath.Join(run.ReplayDir, "inflight-*.json"))
+		for _, f := range old {
+			os.Remove(f)
+		}
+	}
+	cmd := exec.Command(exe, append(append([]string{}, os.Args[1:]...), "--worker")...)
+	var stderr bytes.Buffer
+	cmd.Stdout = os.Stdout
+	cmd.Stderr = &tailWriter{max: 4000, buf: &stderr}
+	if err := cmd.Run(); err == nil {
+		return // the worker wrote the result file
+	} else {
+		buildSchemas()
+		run.Res.Rule = "worker process died (" + err.Error() + "); jobs in flight re-run one per child process"
+		files, _ := filepath.Glob(filepath.Join(run.ReplayDir, "inflight-*.json"))
+		sort.Strings(files)
+		found := false
+		jobs := []job{}
+		for _, f := range files {
+			var rp struct {
+				Job job `json:"job"`
+			}
+			if hx.LoadReplay(f, &rp) != nil || rp.Job.Entry == "" {
+				continue
+			}
+			jobs = append(jobs, rp.Job)
+			o := runInChild(rp.Job)
+			run.Case(hx.Canon(rp.Job), true, nil)
+			if o.Violation != "" {
+				found = true
+				run.Violation("(the harness worker process died; reproduced alone) "+o.Violation+" :: "+rp.Job.Entry+" on "+trunc(rp.Job.Src, 200),
+					map[string]interface{}{"job": rp.Job, "outcome": o, "schema": schemas[rp.Job.Schema%len(schemas)].name, "worker_stderr": stderr.String()}, false)
+			}
+			os.Remove(f)
+		}
+		if !found {
+			run.Violation("the harness worker process died and none of the jobs in flight reproduces it alone: "+trunc(stderr.String(), 300),
+				map[string]interface{}{"jobs_in_flight": jobs, "worker_stderr": stderr.String()}, true)
+		}
+		run.Finish()
+	}
+}
+
 func main() {
 	child := flag.Bool("child", false, "run one job from stdin (internal)")
-	// hx.Begin parses the flags
-	var run *hx.Run
+	worker := flag.Bool("worker", false, "run the job stream in this process (internal; the default is to supervise a worker)")
 	for _, a := range os.Args[1:] {
-		if a == "--child" || a == "-child" {
+		switch a {
+		case "--child", "-child":
 			*child = true
+		case "--worker", "-worker":
+			*worker = true
 		}
 	}
 	if *child {
 		childMain()
 		return
 	}
-	run = hx.Begin("C09")
+	if !*worker {
+		supervise()
+		return
+	}
+	run := hx.Begin("C09") // parses the flags
 	buildSchemas()
 	run.Res.Rule = "job = (entry point or nil/zero-parameter variant, one of 4 schemas, document text, operation name, variables JSON); texts: grammar-directed documents and their mutations (byte flips, token insert/delete/duplicate, truncation, splices), hand-written nasties (fragment cycles of length 1-4 directly and through fields, unknown types, type-system definitions in requests, missing/ambiguous operations, 10k-deep nesting, 10k-wide sets, huge literals), seed corpus (kitchen sinks, corpus/C09) under a coverage-less mutational loop; every AST the real parser accepts is fed UNVALIDATED to ValidateDocument, PlanQuery+ExecutePlan x2, Execute, ExecuteSubscription, and as text to Do, Subscribe, PlanCache.Get (normalize off/on, miss+hit); non-trivial = non-empty input that the parser accepted or that went through a text-level entry point; distinct by the whole job"
 
